@@ -24,7 +24,10 @@ func fmtGradle() *format {
 		dims: []dim{
 			{name: "eol", labels: eolLabels},
 			{name: "trail", labels: trailLabels},
-			{name: "comment", labels: []string{"none", "header", "header+between"}},
+			// leading blanks before '#' / 'empty=' are insignificant (the extractor trims the line before
+			// classifying it, gradlelockfile.go Extract); the comment text is a would-be lock entry
+			{name: "comment", labels: []string{"none", "header", "header+between", "indented-commented-out-entries"}},
+			{name: "indent", labels: []string{"none", "space", "tab", "two-spaces-and-trailing-blank"}},
 			{name: "blank", labels: []string{"0", "1"}},
 			{name: "empty", labels: []string{"at-end", "absent", "at-start-with-confs"}},
 			{name: "confs", labels: []string{"one", "three"}},
@@ -35,6 +38,8 @@ func fmtGradle() *format {
 		l := layout{f, lay}
 		var lines []string
 		var truth []rec
+		ind := []string{"", " ", "\t", "  "}[l.get("indent")]
+		tr := []string{"", "", "", " "}[l.get("indent")]
 		if l.get("comment") >= 1 {
 			lines = append(lines,
 				"# This is a Gradle generated file for dependency locking.",
@@ -42,24 +47,27 @@ func fmtGradle() *format {
 				"# This file is expected to be part of source control.")
 		}
 		if l.get("empty") == 2 {
-			lines = append(lines, "empty=annotationProcessor,testAnnotationProcessor")
+			lines = append(lines, ind+"empty=annotationProcessor,testAnnotationProcessor"+tr)
 		}
 		for i, r := range recs {
 			if i > 0 && l.get("blank") == 1 {
 				lines = append(lines, "")
 			}
 			if l.get("comment") == 2 {
-				lines = append(lines, "# "+r.Name)
+				lines = append(lines, ind+"# "+r.Name)
+			}
+			if l.get("comment") == 3 {
+				lines = append(lines, ind+"# not.a:package:9.9.9=compileClasspath", ind+"#"+r.Name+":9.9.9=runtimeClasspath")
 			}
 			truth = append(truth, rec{Name: r.Name, Version: r.Version})
 			confs := "compileClasspath"
 			if l.get("confs") == 1 {
 				confs = "compileClasspath,runtimeClasspath,testCompileClasspath"
 			}
-			lines = append(lines, r.Name+":"+r.Version+"="+confs)
+			lines = append(lines, ind+r.Name+":"+r.Version+"="+confs+tr)
 		}
 		if l.get("empty") == 0 {
-			lines = append(lines, "empty=")
+			lines = append(lines, ind+"empty="+tr)
 		}
 		return genOut{file: finish(lines, eolOf(l.get("eol")), l.get("trail")), truth: truth}
 	}
